@@ -59,6 +59,9 @@ struct evws_connection {
 	struct evhttp *http_server;
 
 	struct evbuffer *incomplete_frames;
+	/* opcode (TEXT_FRAME or BINARY_FRAME) of the fragmented message that is
+	 * being collected in incomplete_frames */
+	int incomplete_type;
 	bool closed;
 };
 
@@ -70,6 +73,7 @@ enum WebSocketFrameType {
 
 	INCOMPLETE_FRAME = 0x81,
 
+	CONTINUATION_FRAME = 0x0,
 	TEXT_FRAME = 0x1,
 	BINARY_FRAME = 0x2,
 
@@ -284,6 +288,10 @@ get_ws_frame(unsigned char *in_buffer, size_t buf_len,
 	if ((opcode >= 3 && opcode <= 7) || (opcode >= 0xb))
 		return ERROR_FRAME;
 
+	/* control frames are never fragmented and carry at most 125 bytes */
+	if (opcode >= 0x8 && (!fin || payload_len > 125))
+		return ERROR_FRAME;
+
 	if (opcode <= 0x3 && !fin) {
 		return INCOMPLETE_FRAME;
 	}
@@ -297,6 +305,7 @@ ws_evhttp_read_cb(struct bufferevent *bufev, void *arg)
 	struct evws_connection *evws = arg;
 	unsigned char *payload;
 	enum WebSocketFrameType type;
+	unsigned char opcode;
 	size_t msg_len, in_len, header_sz;
 	struct evbuffer *input = bufferevent_get_input(evws->bufev);
 
@@ -312,6 +321,7 @@ ws_evhttp_read_cb(struct bufferevent *bufev, void *arg)
 			/* incomplete data received, wait for next chunk */
 			goto bailout;
 		}
+		opcode = data[0] & 0x0F;
 		header_sz = payload - data;
 		evbuffer_drain(input, header_sz);
 		data = evbuffer_pullup(input, -1);
@@ -320,25 +330,45 @@ ws_evhttp_read_cb(struct bufferevent *bufev, void *arg)
 		case TEXT_FRAME:
 		case BINARY_FRAME:
 			if (evws->incomplete_frames != NULL) {
-				/* we already have incomplete frames in internal buffer
-				 * and need to concatenate them with final one */
-				evbuffer_add(evws->incomplete_frames, data, msg_len);
-
-				data = evbuffer_pullup(evws->incomplete_frames, -1);
-
-				evws->cb(evws, type, data,
-					evbuffer_get_length(evws->incomplete_frames), evws->cb_arg);
-				evbuffer_free(evws->incomplete_frames);
-				evws->incomplete_frames = NULL;
-			} else {
-				evws->cb(evws, type, data, msg_len, evws->cb_arg);
+				/* a new message must not start before the
+				 * fragmented one is complete (RFC 6455 5.4) */
+				evws_force_disconnect_(evws);
+				break;
 			}
+			evws->cb(evws, type, data, msg_len, evws->cb_arg);
+			break;
+		case CONTINUATION_FRAME:
+			/* the last fragment of a fragmented message */
+			if (evws->incomplete_frames == NULL) {
+				/* there is nothing to continue */
+				evws_force_disconnect_(evws);
+				break;
+			}
+			evbuffer_add(evws->incomplete_frames, data, msg_len);
+
+			data = evbuffer_pullup(evws->incomplete_frames, -1);
+
+			evws->cb(evws, evws->incomplete_type, data,
+				evbuffer_get_length(evws->incomplete_frames), evws->cb_arg);
+			evbuffer_free(evws->incomplete_frames);
+			evws->incomplete_frames = NULL;
 			break;
 		case INCOMPLETE_FRAME:
 			/* we received full frame until get fin and need to
 			 * postpone callback until all data arrives */
 			if (evws->incomplete_frames == NULL) {
+				if (opcode == CONTINUATION_FRAME) {
+					/* there is nothing to continue */
+					evws_force_disconnect_(evws);
+					break;
+				}
 				evws->incomplete_frames = evbuffer_new();
+				evws->incomplete_type = opcode;
+			} else if (opcode != CONTINUATION_FRAME) {
+				/* only continuation frames may follow the first
+				 * fragment */
+				evws_force_disconnect_(evws);
+				break;
 			}
 			evbuffer_remove_buffer(input, evws->incomplete_frames, msg_len);
 			continue;
@@ -355,6 +385,9 @@ ws_evhttp_read_cb(struct bufferevent *bufev, void *arg)
 			evws_force_disconnect_(evws);
 		}
 		evbuffer_drain(input, msg_len);
+		/* nothing is delivered after the connection has been closed */
+		if (evws->closed)
+			break;
 	}
 
 bailout:
